@@ -599,12 +599,23 @@ bool qtreetbl_getnext(qtreetbl_t *tbl, qtreetbl_obj_t *obj, const bool newmem) {
             cursor = cursor->left;
             continue;
         } else if (cursor->tid != tid) {
+            void *name = cursor->name;
+            void *data = cursor->data;
+            if (newmem) {
+                name = qmemdup(cursor->name, cursor->namesize);
+                data = qmemdup(cursor->data, cursor->datasize);
+                if (name == NULL || (data == NULL && cursor->data != NULL
+                                     && cursor->datasize > 0)) {
+                    free(name);
+                    free(data);
+                    errno = ENOMEM;
+                    return false;
+                }
+            }
             cursor->tid = tid;
             *obj = *cursor;
-            if (newmem) {
-                obj->name = qmemdup(cursor->name, cursor->namesize);
-                obj->data = qmemdup(cursor->data, cursor->datasize);
-            }
+            obj->name = name;
+            obj->data = data;
             obj->next = cursor;  // store original address in tree for next iteration
             return true;
         } else if (cursor->right != NULL && cursor->right->tid != tid) {
